@@ -154,6 +154,9 @@ pub struct Segment {
     pub agents: Vec<AgentView>,
     /// Guards in the client's table after the segment.
     pub table: Vec<Gid>,
+    /// Fine-grained mode: some agent is parked in the middle of a critical section (it holds the global
+    /// lock), so `snap` could not be taken (it is the last snapshot that could).
+    pub mid_cs: bool,
 }
 
 impl Segment {
@@ -259,18 +262,26 @@ impl Executor {
     }
 
     /// The currently enabled actions.
+    /// Fine-grained mode: an agent is parked in the middle of a critical section (holds the global lock).
+    pub fn cs_held(&self) -> bool {
+        self.agents.iter().any(|a| a.alive() && matches!(a.state, AState::Parked(Site::InCs(_))))
+    }
+
     pub fn enabled(&self) -> Enabled {
         let mut e = Enabled::default();
         if self.dead || self.consumed {
             return e;
         }
         e.guards = self.table_guards();
+        let cs_held = self.cs_held();
         for a in &self.agents {
             if !a.alive() {
                 continue;
             }
             e.alive_agents += 1;
             match &a.state {
+                // waiting for the global lock that another agent holds: cannot move now
+                AState::Parked(Site::Entries) if cs_held => {}
                 AState::Parked(_) => {
                     if a.is_stream() && a.stream_created {
                         e.stream_continue.push(a.aid);
@@ -337,8 +348,11 @@ impl Executor {
             Action::Consume => (vec![self.do_consume()?], vec![]),
         };
         // State is observed between segments.
+        let mid_cs = !self.consumed && self.cs_held();
         let snap = if self.consumed {
             Snap { gone: true, ..Snap::default() }
+        } else if mid_cs {
+            self.last_snap.clone()
         } else {
             self.cont.snapshot()
         };
@@ -407,6 +421,7 @@ impl Executor {
                 })
                 .collect(),
             table: self.run.table.lock().unwrap().keys().copied().collect(),
+            mid_cs,
         };
         let hits = self.monitors.observe(&seg);
         self.violations.extend(hits);
@@ -525,6 +540,9 @@ impl Executor {
             return Err(format!("agent {} is a live stream; use sub/pollend (StreamStep)", aid));
         }
         match &a.state {
+            AState::Parked(Site::Entries) if self.cs_held() => {
+                return Err(format!("agent {} waits for the global lock, which an agent parked inside a critical section holds", aid));
+            }
             AState::Parked(_) => {}
             AState::Blocked => {
                 if !a.woken() {
@@ -639,6 +657,9 @@ impl Executor {
                 self.agents[aid].stale_wake = false;
                 Ok(self.stream_segment(aid, SegStart::FromPoll, step))
             }
+            AState::Parked(Site::Entries) if self.cs_held() => {
+                Err(format!("stream {} waits for the global lock, which an agent parked inside a critical section holds", aid))
+            }
             AState::Parked(_) => {
                 let start = a.seg_start.expect("parked stream agent without segment start");
                 let step = a.cx.send(Cmd::Go);
@@ -702,7 +723,7 @@ impl Executor {
             Event::UnlockBegin(k) | Event::CancelBegin(k) => Some(*k),
             _ => None,
         });
-        let snap_now = self.cont.snapshot();
+        let snap_now = if self.cs_held() { self.last_snap.clone() } else { self.cont.snapshot() };
         let a = &mut self.agents[aid];
         let mut tail_obs: Option<Obs> = None;
         match step {
@@ -803,6 +824,30 @@ impl Executor {
         }
         for a in &self.agents {
             a.cx.set_free_run();
+        }
+        // Fine-grained mode: an agent parked in the middle of a critical section holds the global lock;
+        // it has to leave the critical section before anything else can touch the container.
+        for i in 0..self.agents.len() {
+            if matches!(self.agents[i].state, AState::Parked(Site::InCs(_))) {
+                let step = self.agents[i].cx.send(Cmd::Go);
+                let a = &mut self.agents[i];
+                let _ = a.cx.take_events();
+                match step {
+                    Step::Report(Report::Finished(_)) => a.state = AState::Finished,
+                    Step::Report(Report::Blocked) => a.state = AState::Blocked,
+                    Step::Report(Report::InCallback(off)) => {
+                        a.state = AState::InCallback(off.iter().map(|x| x.0).collect())
+                    }
+                    Step::Report(Report::StreamCreated) => a.state = AState::StreamIdle(LastPoll::Fresh),
+                    Step::Report(Report::StreamPolled(_)) => a.state = AState::StreamIdle(LastPoll::Pending),
+                    Step::Report(Report::AtSite(s)) => a.state = AState::Parked(s),
+                    Step::Timeout | Step::Report(Report::SelfDeadlock(_)) | Step::Report(Report::DoublePanic(_)) => {
+                        a.state = AState::Dead;
+                        self.dead = true;
+                        return false;
+                    }
+                }
+            }
         }
         for _round in 0..10_000 {
             let mut progress = false;
